@@ -21,7 +21,10 @@ Meaning of the Rust constructs (the combinators are in lean/KestrelModel/RsPrelu
   `&mut` parameter      -> passed by value, its final value is returned (tuple in parameter order, Rust result last)
   `&mut a[lo..]` as argument / receiver of copy_from_slice -> call on `a.drop lo`, write back `a := a.take lo ++ result`
   let mut / assignment  -> shadowing `let`
-  for                   -> Rs.forRange / Rs.forStep / Rs.forEnum / Rs.forIn over the tuple of outer variables the body assigns
+  for                   -> Rs.forRange / Rs.forStep / Rs.forEnum / Rs.forIn over the tuple of outer variables the body assigns;
+                           `for (m, x) in s.iter_mut().zip(t)` / `s.chunks_exact_mut(k).zip(t)` (t = `&u`, `u.iter()`,
+                           `u.chunks_exact(k)`; the body changes `*m` / the chunk `m` only) -> s := Rs.zipMut s t f / Rs.zipChunksMut k s t f
+  const NAME: usize = e -> `@[simp] def NAME : Nat := e` (proofs see through it: KestrelProofs/RsUnfold.lean)
   assert!/debug_assert! -> not part of the function body; collected into `def <fn>_pre … : Prop`
   .unwrap(), .try_into(), & and &mut on values, `as`/`from` between usize and u64 -> identity
 """
@@ -203,6 +206,7 @@ class Parser:
     # ---- items
     def parse_file(self):
         uses, fns = {}, []
+        self.consts = []            # `const NAME: T = e;` items, in source order
         while self.peek().kind != 'eof':
             if self.at('#'):
                 self.skip_attribute(); continue
@@ -221,8 +225,14 @@ class Parser:
                     while not self.accept(')'): self.next()
             if self.at('fn'):
                 fns.append(self.parse_fn()); continue
+            if self.at('const'):
+                line = self.next().line
+                name = self.ident().text
+                self.expect(':'); ty = self.parse_type(); self.expect('=')
+                e = self.parse_expr(); self.expect(';')
+                self.consts.append(Node('const', line, name=name, ty=ty, e=e)); continue
             tok = self.peek()
-            raise Unsupported(f'item starting with `{tok.text}` (only `use` and `fn` items are supported)', tok.line)
+            raise Unsupported(f'item starting with `{tok.text}` (only `use`, `const` and `fn` items are supported)', tok.line)
         return uses, fns
 
     def parse_type(self):
@@ -513,8 +523,9 @@ EXTERN = {
 # ------------------------------------------------------------------------------------------------ translation
 
 class FnTranslator:
-    def __init__(self, fn, sigs, uses, src_lines):
+    def __init__(self, fn, sigs, uses, src_lines, consts=None):
         self.fn, self.sigs, self.uses, self.src_lines = fn, sigs, uses, src_lines
+        self.consts = consts or {}          # name -> type of the `const` items above this function
         self.counter = 0
         self.asserts = []
 
@@ -580,6 +591,8 @@ class FnTranslator:
             return self.expr(e.e)
         if k == 'path':
             if len(e.path) == 1:
+                if self.lookup_opt(e.path[0]) is None and e.path[0] in self.consts:
+                    return (lname(e.path[0]), self.consts[e.path[0]], True)
                 v = self.lookup(e.path[0], e.line)
                 return (lname(v.name), v.ty, True)
             if e.path == ['usize', 'MAX']: return ('(2^64 - 1)', 'usize', True)
@@ -812,6 +825,8 @@ class FnTranslator:
         def place_var(e):
             if e.kind == 'ref': e = e.e
             while e.kind == 'paren': e = e.e
+            if e.kind == 'unary' and e.op == '*': e = e.e         # `*d = …` for a `&mut` loop variable
+            while e.kind == 'paren': e = e.e
             if e.kind == 'index': e = e.e
             while e.kind == 'paren': e = e.e
             if e.kind == 'path' and len(e.path) == 1: return e.path[0]
@@ -836,6 +851,8 @@ class FnTranslator:
             for s in block.stmts:
                 if s.kind == 'let': local[-1].add(s.name)
                 elif s.kind == 'for':
+                    m = self.zip_parts(s.iter)
+                    if m is not None: note(place_var(m[0].recv), s.line)
                     local.append(set(local[-1]) | {n for n in s.pat if n != '_'})
                     scan(s.body)
                     local.pop()
@@ -875,6 +892,11 @@ class FnTranslator:
     def assign_stmt(self, e):
         p = e.place
         while p.kind == 'paren': p = p.e
+        if p.kind == 'unary' and p.op == '*':
+            q = p.e
+            while q.kind == 'paren': q = q.e
+            if q.kind == 'path' and len(q.path) == 1 and self.lookup(q.path[0], q.line).kind == 'zipmut': p = q
+            else: self.bad('assignment through `*` to something other than a `&mut` loop variable', e.line)
         op = e.op[:-1]
         rhs = self.expr(e.e)
 
@@ -962,9 +984,69 @@ class FnTranslator:
         for (v, wb, sub), nm in zip(outs, names):
             if sub: self.emit(f'let {lname(v.name)} := {wb(nm)}')
 
+    def zip_parts(self, it):
+        """(left, right) when `it` is `X.iter_mut().zip(Y)` or `X.chunks_exact_mut(k).zip(Y)`, else None"""
+        while it.kind == 'paren': it = it.e
+        if it.kind == 'mcall' and it.name == 'zip' and len(it.args) == 1:
+            left = it.recv
+            while left.kind == 'paren': left = left.e
+            if left.kind == 'mcall' and ((left.name == 'iter_mut' and not left.args) or
+                                         (left.name == 'chunks_exact_mut' and len(left.args) == 1)):
+                return left, it.args[0]
+        return None
+
+    def zip_stmt(self, s, left, right):
+        """`for (m, x) in X.iter_mut().zip(Y) { … }` / `for (m, x) in X.chunks_exact_mut(k).zip(Y) { … }` where the body
+        changes nothing but `*m` / the chunk `m`:  X := Rs.zipMut X Y (fun m x => …; m)  /  Rs.zipChunksMut k X Y (fun m x => …; m)"""
+        if len(s.pat) != 2 or '_' in s.pat: self.bad('`.zip(..)` needs a pattern `(a, b)`', s.line)
+        v, read, wb, ty, sub = self.place(Node('ref', left.line, mut=True, e=left.recv), f'receiver of `.{left.name}`')
+        if not is_list(ty): self.bad(f'`.{left.name}` on a non-slice', s.line)
+        elem = resolve(ty)[1]
+        chunked = left.name == 'chunks_exact_mut'
+        if chunked:
+            k = self.expr(left.args[0]); self.unify(k[1], 'usize', s.line, 'chunk size')
+        r = right
+        while r.kind == 'paren': r = r.e
+        if r.kind == 'ref' and not r.mut:
+            ys = self.expr(r.e); yelem = None
+        elif r.kind == 'mcall' and r.name == 'iter' and not r.args:
+            ys = self.expr(r.recv); yelem = None
+        elif r.kind == 'mcall' and r.name == 'chunks_exact' and len(r.args) == 1:
+            inner = self.expr(r.recv)
+            if not is_list(inner[1]): self.bad('`.chunks_exact` on a non-slice', s.line)
+            k2 = self.expr(r.args[0]); self.unify(k2[1], 'usize', s.line, 'chunk size')
+            ys = (f'Rs.chunksExact {self.paren(k2)} {self.paren(inner)}', None, False)
+            yelem = ('list', resolve(inner[1])[1], 'ref')
+        else:
+            self.bad('`.zip(..)` of something other than `&s`, `s.iter()`, `s.chunks_exact(k)`', s.line)
+        if yelem is None:
+            if not is_list(ys[1]): self.bad('`.zip(..)` of a non-slice', s.line)
+            yelem = resolve(ys[1])[1]
+        outer = [w for w in self.assigned_outer(s.body, [set(s.pat)])]
+        if outer: self.bad(f'`.zip(..)` loop whose body assigns the outer variable `{outer[0].name}`', s.line)
+        rd = read if not sub else f'({read})'
+        head = f'Rs.zipChunksMut {self.paren(k)} {rd} {self.paren(ys)}' if chunked else f'Rs.zipMut {rd} {self.paren(ys)}'
+        m, x = s.pat
+        name = lname(v.name) + ("'" if sub else '')
+        self.emit(f'let {name} := {head} (fun {lname(m)} {lname(x)} =>')
+        self.scopes.append({})
+        mv = self.declare(m, ('list', elem, 'mutref') if chunked else elem, True, 'zipmut', s.line)
+        self.declare(x, yelem, False, 'loopvar', s.line)
+        self.tracked.append((len(self.scopes) - 1, [mv]))
+        self.depth += 1; self.depth_loops += 1
+        self.block_body(s.body)
+        if s.body.tail is not None: self.bad('loop body ending in an expression', s.body.tail.line)
+        self.emit(f'{lname(m)})')
+        self.depth -= 1; self.depth_loops -= 1
+        self.tracked.pop()
+        self.scopes.pop()
+        if sub: self.emit(f'let {lname(v.name)} := {wb(name)}')
+
     def for_stmt(self, s):
         it = s.iter
         while it.kind == 'paren': it = it.e
+        zp = self.zip_parts(it)
+        if zp is not None: return self.zip_stmt(s, zp[0], zp[1])
         pat = s.pat
         binders = []  # (name, type)
         if it.kind == 'mcall' and it.name == 'step_by' and len(it.args) == 1:
@@ -1002,7 +1084,8 @@ class FnTranslator:
             if len(pat) != 1: self.bad('tuple pattern over a slice', s.line)
             binders = [(pat[0], resolve(l[1])[1])]
         else:
-            self.bad('`for` over an iterator other than a..b, (a..b).step_by(k), s.iter(), s.iter().enumerate(), &s', s.line)
+            self.bad('`for` over an iterator other than a..b, (a..b).step_by(k), s.iter(), s.iter().enumerate(), &s, '
+                     's.iter_mut().zip(t), s.chunks_exact_mut(k).zip(t)', s.line)
 
         state = self.assigned_outer(s.body, [{n for n in pat if n != '_'}])
         if not state: self.bad('`for` loop that assigns no outer variable', s.line)
@@ -1067,6 +1150,7 @@ class FnTranslator:
                 if resolve(r[1]) != 'bool': self.bad(f'`{a.what}!` of a non-boolean', a.line)
                 texts.append(f'({r[0]})')
                 for name in free_vars(a.e):
+                    if name in self.consts and self.scopes[0].get(name) is None: continue
                     v = self.scopes[0].get(name)
                     if v is None or v.kind != 'param' or self.lookup_opt(name) is not v or not is_natlike(v.ty):
                         self.bad(f'`{a.what}!` mentions `{name}`, which is not an integer parameter of the function', a.line)
@@ -1110,11 +1194,27 @@ def translate(src_text, src_label):
         if p.fn and not getattr(u, 'fn', None): u.fn = p.fn
         raise
     sigs, chunks = {}, []
+    consts = {}
+    for c in sorted(p.consts, key=lambda c: c.line):
+        # a `const` is a `@[simp] def`: `simp` (and `rs_unfold` of KestrelProofs/RsUnfold.lean) sees through it, so naming a
+        # literal does not change what a proof about the functions sees
+        if c.name in consts: raise Unsupported(f'two constants named `{c.name}`', c.line)
+        if c.ty not in NATLIKE: raise Unsupported(f'`const {c.name}` of type {show_type(c.ty)} (only usize / u64 constants are supported)', c.line)
+        holder = Node('fn', c.line, name=f'const {c.name}', params=[], ret=c.ty, body=None)
+        try:
+            tr = FnTranslator(holder, {}, uses, src_lines, dict(consts))
+            tr.scopes, tr.tracked = [{}], []
+            r = tr.expr(c.e); tr.unify(r[1], c.ty, c.line, f'const {c.name}'); r = tr.expr(c.e)
+        except Unsupported as u:
+            u.fn = f'const {c.name}'; raise
+        consts[c.name] = c.ty
+        chunks.append(f'/-- `const {c.name}` (scrypt.rs line {c.line}) -/\n@[simp] def {lname(c.name)} : {lean_type(c.ty)} := {r[0]}')
     for fn in fns:
         if fn.name in sigs: raise Unsupported(f'two functions named `{fn.name}`', fn.line)
+        visible = {n: t for n, t in consts.items()}
         try:
-            FnTranslator(fn, sigs, uses, src_lines).run()           # first pass fixes the types of untyped literals
-            body, pre = FnTranslator(fn, sigs, uses, src_lines).run()
+            FnTranslator(fn, sigs, uses, src_lines, visible).run()           # first pass fixes the types of untyped literals
+            body, pre = FnTranslator(fn, sigs, uses, src_lines, visible).run()
         except Unsupported as u:
             u.fn = fn.name
             raise
